@@ -98,12 +98,15 @@ cdef class RadialSolverSolution():
         for i in range(love_array_size):
             self.complex_love_ptr[i] = NAN
 
+    # The accessors below return COPIES (np.array) of the solution buffers: the buffers are owned by this object and are
+    #  released when it is deallocated, so a view handed to the caller would dangle as soon as the solution object goes
+    #  away (e.g. `radial_solver(...).k` on a temporary).
     @property
     def result(self):
         """ Return result array. """
 
         if self.success:
-            return np.ascontiguousarray(
+            return np.array(
                 self.full_solution_view,
                 dtype=np.complex128
                 ).reshape((self.num_slices, self.num_ytypes * MAX_NUM_Y)).T
@@ -114,7 +117,7 @@ cdef class RadialSolverSolution():
     def love(self):
         """ Return all complex love numbers. """
         if self.success:
-            return np.ascontiguousarray(
+            return np.array(
                 self.complex_love_view,
                 dtype=np.complex128
             ).reshape((self.num_ytypes, 3))
@@ -125,7 +128,7 @@ cdef class RadialSolverSolution():
     def k(self):
         """ Tidal Love number k. """
         if self.success:
-            return np.ascontiguousarray(
+            return np.array(
                 self.complex_love_view[0::3],
                 dtype=np.complex128
             )
@@ -136,7 +139,7 @@ cdef class RadialSolverSolution():
     def h(self):
         """ Tidal Love number h. """
         if self.success:
-            return np.ascontiguousarray(
+            return np.array(
                 self.complex_love_view[1::3],
                 dtype=np.complex128
             )
@@ -147,7 +150,7 @@ cdef class RadialSolverSolution():
     def l(self):
         """ Tidal Shida number l. """
         if self.success:
-            return np.ascontiguousarray(
+            return np.array(
                 self.complex_love_view[2::3],
                 dtype=np.complex128
             )
